@@ -73,7 +73,8 @@ func DecodeBatteryMonitorRecord(inp []byte) (ret BatteryMonitorRecord, err error
 	}
 
 	if v := (binary.LittleEndian.Uint32(inp[8:12]) >> 2) & 0x3FFFFF; v != 0x3FFFFF && v != 0x1FFFFF {
-		ret.BatteryCurrent = float64(int32(v)) / 1000
+		// sign extend the 22-bit two's complement value
+		ret.BatteryCurrent = float64(int32(v<<10)>>10) / 1000
 	} else {
 		ret.BatteryCurrent = math.NaN()
 	}
